@@ -447,7 +447,7 @@ def run(rep):
         if not ok:
             raise common.MachineryError("cargo build failed: " + out[-2000:])
     st_gen, st_res = {}, {}
-    ncases = 450 if tier == "quick" else 9000
+    ncases = 380 if tier == "quick" else 6000
     cases = make_cases(rng, ncases, st_gen)
     jcases = [json_case(c) for c in cases]
     outs = common.run_impl("addrbook", jcases, "dev")
